@@ -388,7 +388,7 @@ def schedules(ctx, model_ok, tmp):
 def registration_races(ctx, tmp, template):
     """Races inside get-or-create registrations: client B's whole registration lands inside a window of client A's
     (between A's lookup and its insert-or-compare; between A's refresh and its table lock)."""
-    from lsst.daf.butler import Butler, DatasetType
+    from lsst.daf.butler import Butler, CollectionType, DatasetType
 
     def viol(what, key, replay):
         ctx.violations.append(core.Violation(what=what, key=key, replay=replay))
@@ -402,7 +402,8 @@ def registration_races(ctx, tmp, template):
     def observe_types(root):
         try:
             b = Butler.from_config(root)
-            return sorted((t.name, t.storageClass_name, tuple(sorted(t.dimensions.names))) for t in b.registry.queryDatasetTypes())
+            return (sorted((t.name, t.storageClass_name, tuple(sorted(t.dimensions.names))) for t in b.registry.queryDatasetTypes()),
+                    sorted((c, b.registry.getCollectionType(c).name) for c in b.registry.queryCollections() if c.startswith("race_")))
         except Exception as e:
             return f"fresh client cannot list dataset types: {type(e).__name__}"
 
@@ -426,6 +427,8 @@ def registration_races(ctx, tmp, template):
         "new-dimension-group-at-sync": (lambda b: b.registry.registerDatasetType(DatasetType("ga", {"instrument", "physical_filter"}, "StructuredDataDict", universe=b.dimensions)),
                                         lambda b: b.registry.registerDatasetType(DatasetType("gb", {"instrument", "physical_filter"}, "StructuredDataDict", universe=b.dimensions)), "sync"),
         "same-run": (lambda b: b.registry.registerRun("race_run"), lambda b: b.registry.registerRun("race_run"), "sync"),
+        # one name, two collection types
+        "same-name-other-type": (lambda b: b.registry.registerRun("race_coll"), lambda b: b.registry.registerCollection("race_coll", CollectionType.TAGGED), "sync"),
     }
     for name, (fa, fb, where) in scenarios.items():
         seq = set()
